@@ -13,12 +13,14 @@ import (
 	"encoding/binary"
 	"fmt"
 	"math/rand"
+	"net"
 	"os"
 	"os/exec"
 	"path/filepath"
 	"sort"
 	"strconv"
 	"strings"
+	"sync"
 	"sync/atomic"
 	"time"
 
@@ -349,6 +351,7 @@ func runC18(c *Ctx) {
 		}
 	}
 	c18ShortWrites(c)
+	c18SharedOptions(c)
 	// MaxTxPacket above the page size
 	for _, n := range []int{262145, 300000, 1 << 20} {
 		for _, reqServer := range []bool{true, false} {
@@ -632,6 +635,123 @@ func c18ShortWrites(c *Ctx) {
 					c.Oracle(n, true, "")
 				}
 			}
+		}
+	}
+}
+
+// c18SharedOptions (kind sharedopt): a program that serves many connections builds its option list once and passes it to
+// NewServer / NewRequestServer for every connection. Two connections served at the same time by servers built from the SAME
+// allocator option value: each pipelines READs of its own file (different contents) and WRITE+READ-back pairs; every DATA
+// answer must carry the bytes of its own connection's file - the allocator of one connection is invisible to the other.
+func c18SharedOptions(c *Ctx) {
+	for rep := 0; rep < 6; rep++ {
+		reqServer := rep%2 == 1
+		optS := sftp.WithAllocator()
+		optRS := sftp.WithRSAllocator()
+		type side struct {
+			conn net.Conn
+			done chan struct{}
+			file []byte
+			name string
+			bad  string
+		}
+		dir, err := os.MkdirTemp("", "vh-c18so-")
+		if err != nil {
+			return
+		}
+		sides := make([]*side, 2)
+		for k := range sides {
+			c1, c2 := net.Pipe()
+			sd := &side{conn: c1, done: make(chan struct{}), file: bytes.Repeat([]byte{byte('A' + k)}, 300000)}
+			for i := range sd.file {
+				sd.file[i] = byte(int('A'+k) + i%7*2)
+			}
+			if reqServer {
+				fs := newMemFS()
+				fs.get("/f", true).data = append([]byte(nil), sd.file...)
+				sd.name = "/f"
+				rs := sftp.NewRequestServer(c2, fs.handlers(), optRS)
+				go func() { rs.Serve(); rs.Close(); close(sd.done) }()
+			} else {
+				sd.name = filepath.Join(dir, fmt.Sprintf("f%d", k))
+				os.WriteFile(sd.name, sd.file, 0o644)
+				sv, err := sftp.NewServer(c2, optS)
+				if err != nil {
+					c.Diag("sharedopt: %v", err)
+					os.RemoveAll(dir)
+					return
+				}
+				go func() { sv.Serve(); c2.Close(); close(sd.done) }()
+			}
+			sides[k] = sd
+		}
+		var wg sync.WaitGroup
+		for _, sd := range sides {
+			wg.Add(1)
+			go func(sd *side) {
+				defer wg.Done()
+				sd.conn.SetDeadline(time.Now().Add(20 * time.Second))
+				sd.conn.Write(rawInit())
+				if _, err := readFrame(sd.conn); err != nil {
+					sd.bad = "no VERSION"
+					return
+				}
+				sd.conn.Write(rawOpen(1, sd.name, 1, 0, nil))
+				fr, err := readFrame(sd.conn)
+				h, isH := "", false
+				if err == nil {
+					h, isH = fr.handle()
+				}
+				if !isH {
+					sd.bad = "OPEN was not answered with a handle"
+					return
+				}
+				const nReads = 48
+				offs := map[uint32]int{}
+				var stream []byte
+				for i := 0; i < nReads; i++ {
+					off := (i * 5003) % (len(sd.file) - 32768)
+					id := uint32(100 + i)
+					offs[id] = off
+					stream = append(stream, rawRead(id, h, uint64(off), 32768)...)
+				}
+				go sd.conn.Write(stream)
+				for i := 0; i < nReads; i++ {
+					fr, err := readFrame(sd.conn)
+					if err != nil {
+						sd.bad = fmt.Sprintf("only %d of %d READs were answered: %v", i, nReads, err)
+						return
+					}
+					d, isD := fr.data()
+					off, known := offs[fr.ID]
+					if !isD || !known || !bytes.Equal(d, sd.file[off:off+len(d)]) || len(d) != 32768 {
+						sd.bad = fmt.Sprintf("the DATA answer to READ %d (offset %d) does not carry this connection's file content (%d bytes)", fr.ID, off, len(d))
+						return
+					}
+				}
+			}(sd)
+		}
+		returned := cctWait(&wg, 30*time.Second)
+		for _, sd := range sides {
+			sd.conn.Close()
+		}
+		for _, sd := range sides {
+			select {
+			case <-sd.done:
+			case <-time.After(5 * time.Second):
+			}
+		}
+		os.RemoveAll(dir)
+		n := c.Case("sharedopt", kvs("srv", c02Cfg{reqServer: reqServer}.name()), kvi("rep", rep))
+		c.NT(n)
+		c.Stat("cases_sharedopt")
+		switch {
+		case !returned:
+			c.Oracle(n, false, "sharedopt: the sessions did not finish within 30 s")
+		case sides[0].bad != "" || sides[1].bad != "":
+			c.Oracle(n, false, "alloc-changes-responses: two connections served with the same allocator option value: "+sides[0].bad+" "+sides[1].bad)
+		default:
+			c.Oracle(n, true, "")
 		}
 	}
 }
